@@ -126,8 +126,13 @@ Definition fp_layout (a : arch) (base ip0 : Z) (fs : list frame_spec) : regs * v
    Per call: [fill words][return address].  A CFI frame's fill words are arbitrary (the technique never looks at
    them); a scan frame's fill is [skipped words: arbitrary][scanned words: 0], the skipped part being the MIN_ARGS
    words of mips32 for every callee but the context frame.  [ms_tech f] is the technique that recovers the caller
-   of the frame whose lowest word is the first fill word of [f]. *)
-Inductive tech := TkCfi | TkScan.
+   of the frame whose lowest word is the first fill word of [f].
+   Second pass of round 5: frame-pointer frames in the mix.  A [TkFp] record is [fill words][return address] too, its LAST
+   fill word being the saved frame pointer (x86 convention [saved fp][return address]); the callee's frame pointer must
+   hold the address of that word.  The frame pointer's state travels along the stack as [option Z]: [None] = not valid
+   (value 0, after a scan), [Some v] = valid with value v (context frame, after a frame-pointer frame = the saved word;
+   carried through CFI frames as a callee-saved register). *)
+Inductive tech := TkCfi | TkScan | TkFp.
 Record mspec := { ms_tech : tech; ms_fill : list Z; ms_ra : Z }.
 Definition ms_len (f : mspec) : Z := Z.of_nat (length (ms_fill f)).
 
@@ -141,18 +146,24 @@ Definition mix_next_valid (a : arch) (t : tech) (v : validity) : validity :=
   match t with
   | TkCfi => VSome (forwarded a v ++ [a_cfi_sp_name a; a_cfi_ip_name a])
   | TkScan => plain_valid a
+  | TkFp => VSome (fp_valid a)
   end.
-Definition mix_next_gp (t : tech) (gp : list Z) : list Z := match t with TkCfi => gp | TkScan => [] end.
-Definition mix_trust (t : tech) : trust := match t with TkCfi => TCfi | TkScan => TScan end.
-Definition mix_frame (a : arch) (t : tech) (v : validity) (gp : list Z) (sp ra : Z) : frame :=
+Definition mix_next_gp (t : tech) (gp : list Z) : list Z := match t with TkCfi => gp | _ => [] end.
+Definition mix_trust (t : tech) : trust := match t with TkCfi => TCfi | TkScan => TScan | TkFp => TFramePointer end.
+(* the frame pointer: value (0 when not valid) and the caller's state from the callee's *)
+Definition st_val (st : option Z) : Z := match st with Some v => v | None => 0 end.
+Definition mix_next_st (t : tech) (fill : list Z) (st : option Z) : option Z :=
+  match t with TkCfi => st | TkScan => None | TkFp => Some (last fill 0) end.
+Definition mix_frame (a : arch) (t : tech) (v : validity) (gp : list Z) (st' : option Z) (sp ra : Z) : frame :=
   {| f_instr := ra - a_adj a; f_resume := ra; f_trust := mix_trust t;
-     f_regs := {| r_ip := ra; r_sp := sp; r_fp := 0; r_lr := 0; r_gp := mix_next_gp t gp |};
+     f_regs := {| r_ip := ra; r_sp := sp; r_fp := st_val st'; r_lr := 0; r_gp := mix_next_gp t gp |};
      f_valid := mix_next_valid a t v |}.
-Fixpoint mix_chain (a : arch) (v : validity) (gp : list Z) (base off : Z) (fs : list mspec) : list frame :=
+Fixpoint mix_chain (a : arch) (v : validity) (gp : list Z) (st : option Z) (base off : Z) (fs : list mspec) : list frame :=
   match fs with
   | [] => []
-  | f :: t => mix_frame a (ms_tech f) v gp (base + a_pw a * (off + ms_len f + 1)) (ms_ra f)
-              :: mix_chain a (mix_next_valid a (ms_tech f) v) (mix_next_gp (ms_tech f) gp) base (off + ms_len f + 1) t
+  | f :: t => mix_frame a (ms_tech f) v gp (mix_next_st (ms_tech f) (ms_fill f) st) (base + a_pw a * (off + ms_len f + 1)) (ms_ra f)
+              :: mix_chain a (mix_next_valid a (ms_tech f) v) (mix_next_gp (ms_tech f) gp)
+                           (mix_next_st (ms_tech f) (ms_fill f) st) base (off + ms_len f + 1) t
   end.
 
 (* the abstract correct symbol-file oracle of a mixed stack: answers (caller sp, return address, everything else
@@ -173,30 +184,56 @@ Definition mix_cfi_correct (a : arch) (base : Z) (fs : list mspec) (callee : fra
   | _ => None
   end.
 
-(* the boolean precondition.  [ctx]: the callee is the context frame; [instr]: the callee's lookup address *)
+(* the boolean precondition.  [ctx]: the callee is the context frame; [instr]: the callee's lookup address; [off]: words
+   below the record; [st]: the callee's frame-pointer state.
+   A frame-pointer frame: the architecture follows frame pointers whatever the OS (x86, amd64, arm64); the callee's frame
+   pointer is valid and holds the address of the record's last fill word; the return address is canonical (and, like the
+   saved frame pointer, below 2^47 where pointer-authentication bits are stripped); the caller's sp stays below the
+   `MAX - 2 words` guard; on amd64 the caller's sp and the saved frame pointer must be readable stack addresses and the
+   saved frame pointer must not lie below the caller's sp (get_caller_by_frame_pointer's own sanity checks).
+   A scan frame: the callee's frame pointer is not valid, or 0 (the frame-pointer technique gives up on it).
+   A CFI frame: a valid non-zero frame pointer is carried to the caller where the unwinder's CALLEE_SAVED_REGS names the
+   frame pointer as the frame-pointer technique does (x86 ebp, amd64 rbp; arm/arm64 list "fp" while the technique marks
+   "r11"/"x29" valid, so there the register is dropped behind a frame-pointer frame: see design/C04.md). *)
+Definition fp_mixable (a : arch) : bool := match a_fp a with FpX86 | FpAmd64 | FpArm64 => true | _ => false end.
+Definition st_zero (st : option Z) : bool := match st with None => true | Some v => v =? 0 end.
 Definition words_in_range (a : arch) (ws : list Z) : bool := forallb (fun w => (0 <=? w) && (w <? 2 ^ a_bits a)) ws.
 Definition all_zero (ws : list Z) : bool := forallb (Z.eqb 0) ws.
 Definition is_some {A} (o : option A) : bool := match o with Some _ => true | None => false end.
-Fixpoint mix_frames_ok (a : arch) (iv : Z -> bool) (module_at : Z -> option Z) (ctx : bool) (instr : Z) (fs : list mspec) : bool :=
+Definition opt_eqb (o : option Z) (v : Z) : bool := match o with Some x => x =? v | None => false end.
+Fixpoint mix_frames_ok (a : arch) (iv : Z -> bool) (module_at : Z -> option Z) (base : Z) (ctx : bool) (instr off : Z)
+  (st : option Z) (fs : list mspec) : bool :=
   match fs with
   | [] => true
   | f :: t =>
       words_in_range a (ms_fill f) && (a_cutoff a <=? ms_ra f) && (ms_ra f <? 2 ^ a_bits a) &&
       (match ms_tech f with
-       | TkCfi => is_some (module_at instr) && (negb (a_strip a) || (ms_ra f <? 2 ^ 47))
+       | TkCfi => is_some (module_at instr) && (negb (a_strip a) || (ms_ra f <? 2 ^ 47)) &&
+                  (st_zero st || memb (a_fp_name a) (a_callee_saved a))
        | TkScan =>
            let lo := if ctx then 0 else scan_skip_words a in
            let win := if ctx then a_scan_context a else a_scan_default a in
            (lo <=? ms_len f) && (ms_len f - lo <? win) && all_zero (skipn (Z.to_nat lo) (ms_fill f)) &&
-           a_pre_ok a (ms_ra f) && iv (ms_ra f)
+           a_pre_ok a (ms_ra f) && iv (ms_ra f) && st_zero st
+       | TkFp =>
+           let nf := last (ms_fill f) 0 in
+           let csp := base + a_pw a * (off + ms_len f + 1) in
+           fp_mixable a && (1 <=? ms_len f) && opt_eqb st (base + a_pw a * (off + ms_len f - 1)) &&
+           a_canon_fp a (ms_ra f) && (negb (a_strip a) || ((ms_ra f <? 2 ^ 47) && (nf <? 2 ^ 47))) &&
+           (csp + 1 <? 2 ^ a_bits a) &&
+           (match a_fp a with
+            | FpAmd64 => (1 <=? mix_total t) && (csp <=? nf) && (nf + a_pw a <=? csp + a_pw a * mix_total t)
+            | _ => true
+            end)
        end) &&
-      mix_frames_ok a iv module_at false (ms_ra f - a_adj a) t
+      mix_frames_ok a iv module_at base false (ms_ra f - a_adj a) (off + ms_len f + 1) (mix_next_st (ms_tech f) (ms_fill f) st) t
   end.
-Definition mix_wf_layout (a : arch) (iv : Z -> bool) (module_at : Z -> option Z) (base ip0 : Z) (fs : list mspec) : bool :=
-  mix_frames_ok a iv module_at true ip0 fs && negb (a_pre_ok a 0 && iv 0) &&
-  (a_pw a <? base) && (base + a_pw a * mix_total fs <? 2 ^ a_bits a).
-Definition mix_layout (a : arch) (base ip0 : Z) (gp0 : list Z) (fs : list mspec) : regs * validity * memory :=
-  ({| r_ip := ip0; r_sp := base; r_fp := 0; r_lr := 0; r_gp := gp0 |}, VAll, mk_mem a base (mix_words fs)).
+Definition mix_wf_layout (a : arch) (iv : Z -> bool) (module_at : Z -> option Z) (base ip0 fp0 : Z) (fs : list mspec) : bool :=
+  mix_frames_ok a iv module_at base true ip0 0 (Some fp0) fs && negb (a_pre_ok a 0 && iv 0) &&
+  (a_pw a <? base) && (base + a_pw a * mix_total fs <? 2 ^ a_bits a) &&
+  (0 <=? fp0) && (negb (a_strip a) || (fp0 <? 2 ^ 47)).
+Definition mix_layout (a : arch) (base ip0 fp0 : Z) (gp0 : list Z) (fs : list mspec) : regs * validity * memory :=
+  ({| r_ip := ip0; r_sp := base; r_fp := fp0; r_lr := 0; r_gp := gp0 |}, VAll, mk_mem a base (mix_words fs)).
 
 (* ---- STACK CFI rules instead of the abstract oracle: the evaluator of the rule family the correspondence run uses,
      STACK CFI INIT <lo> <size> .cfa: <sp> N + .ra: .cfa <pointer width> - ^
@@ -225,14 +262,13 @@ Definition cfi_rules (a : arch) (mem : memory) (rule_at : Z -> option Z) (callee
 (* the lookup address of the callee of the frame after [done]: the context's ip, then return address - adj *)
 Fixpoint prev_instr (a : arch) (instr : Z) (done : list mspec) : Z :=
   match done with [] => instr | x :: d => prev_instr a (ms_ra x - a_adj a) d end.
-Definition opt_eqb (o : option Z) (v : Z) : bool := match o with Some x => x =? v | None => false end.
 (* the rule table describes the layout: a CFI frame's callee is covered by a record whose N is the frame size, a scan
-   frame's callee by none *)
+   or frame-pointer frame's callee by none *)
 Fixpoint rules_ok (a : arch) (rule_at : Z -> option Z) (instr : Z) (fs : list mspec) : bool :=
   match fs with
   | [] => true
   | f :: t => (match ms_tech f with
                | TkCfi => opt_eqb (rule_at instr) (a_pw a * (ms_len f + 1))
-               | TkScan => negb (is_some (rule_at instr))
+               | _ => negb (is_some (rule_at instr))
                end) && rules_ok a rule_at (ms_ra f - a_adj a) t
   end.
